@@ -9,3 +9,17 @@ proof! {
 	}
 }
 pub const HARNESSES: &[(&str, fn())] = &[("c00::noop", noop)];
+
+use grin_core::core::hash::Hashed;
+proof! {
+	[hash_ideal] fn ideal_hash_probe() {
+		// micro-benchmark of the ideal-hash stub: three hashes, equal inputs <=> equal digests
+		let a: u64 = crate::nd::any();
+		let b: u64 = crate::nd::any();
+		let ha = a.hash();
+		let hb = b.hash();
+		let ha2 = a.hash();
+		check!(ha == ha2, "same input same digest");
+		check!((a == b) == (ha == hb), "injective");
+	}
+}
